@@ -326,6 +326,22 @@ func (w *World) observe(ctx context.Context, rc *regclient.RegClient, present ma
 				}
 			}
 		}
+		// the same question asked with a reference that carries a tag next to the digest
+		// (repo:tag@sha256:..., the pinned-tag form) must give the same answer
+		if s == subj0.Digest {
+			rl, err := rc.ReferrerList(ctx, w.base.SetTag("subject").AddDigest(s))
+			if err != nil {
+				return "list-error", fmt.Sprintf("%s: ReferrerList(tag+digest form) failed: %v", who, err)
+			}
+			var tn []string
+			for _, d := range rl.Descriptors {
+				tn = append(tn, nameOf(d.Digest.String()))
+			}
+			sort.Strings(tn)
+			if strings.Join(tn, ",") != strings.Join(want, ",") {
+				return "list-differs-for-tag+digest-reference", fmt.Sprintf("%s: ReferrerList(%s as repo:tag@digest) = %v, live manifests naming it: %v", who, nameOf(s), tn, want)
+			}
+		}
 		// filters select exactly the matching ones
 		fn, _, err := w.list(ctx, rc, s, scheme.WithReferrerMatchOpt(descriptor.MatchOpt{ArtifactType: atSig}))
 		if err != nil {
